@@ -10,7 +10,6 @@ from sa import index
 from sa import tables
 from sa.rules import common
 from sa.rules import shared
-from sa.rules import c08
 
 EXPLANATION = (
     'Index and sentinel discipline of the graph rewriting, decided on code '
@@ -20,8 +19,8 @@ EXPLANATION = (
     'one insert, TransformationInfo consistent with it); helper contracts; '
     'insert position >= producer + 1; the graph-input/-output pseudo id -1 '
     'never reaches an index expression unguarded; no truthiness test on an '
-    'id (0 is valid); op-id map maintained after every transformation; an '
-    'instruction with no consumers never reaches an insert transformation.'
+    'id (0 is valid); op-id map maintained after every transformation; '
+    'horizontal grouping of consumers is a partition by equality.'
 )
 LEVEL_TEXT = (
     'Decides necessary conditions of well-formedness that hold or fail '
@@ -453,8 +452,21 @@ def run(ctx):
   r6_sentinel(ctx)
   r7_no_truthiness_on_ids(ctx)
   r8_op_id_maps(ctx)
-  c08.r5_empty_consumers_guard(ctx, 'C01.R9')
   r10_grouping_table(ctx)
+  # the buffer-sharing guard protects well-formedness too (a constant annotated
+  # with two different parameter sets is rejected by the interpreter)
+  from sa.rules import c15  # pylint: disable=g-import-not-at-top
+  for old, new, title, fn in (('C15.R1', 'C01.R9', 'the buffer-sharing check runs on every path of plan generation (C15.R1)', c15.r1_must_call),
+                              ('C15.R2', 'C01.R11', 'the buffer->tensors map counts every operand occurrence (C15.R2)', c15.r2_coverage)):
+    before = len(ctx.violations)
+    fn(ctx)
+    if old in ctx.rules:
+      rs = ctx.rules.pop(old)
+      rs.title = title
+      ctx.rules[new] = rs
+    for v in ctx.violations[before:]:
+      if v.rule == old:
+        v.rule = new
 
 
 def r10_grouping_table(ctx, R='C01.R10'):
